@@ -1,5 +1,7 @@
 import Dmn.Model.Concurrency
 import Dmn.Lemmas.Concurrency
+import Dmn.Model.ConcPanic
+import Dmn.Lemmas.ConcPanic
 import Dmn.Gen.SharedState
 
 /-!
@@ -178,3 +180,111 @@ theorem nested_read_deadlocks_with_writer :
   decide
 
 end Dmn.Conc
+
+/-! ## Panicking evaluations: guards, unwinding, poisoning
+
+`Dmn.ConcP` (Dmn/Model/ConcPanic.lean) refines the semantics by what `std::sync::RwLock` does when
+a call panics while it holds guards.  Modelled assumptions (the documented rules of std): P1 a lock
+is released when its guard is dropped and unwinding drops every guard of the panicking call; P2 a
+lock is poisoned exactly when a *write* guard is dropped during a panic — a read guard never
+poisons; P3 an acquisition of a poisoned lock fails, and the evaluator's `if let Ok(..) = ….read()`
+then ends the call with a null. -/
+
+namespace Dmn.ConcP
+
+variable {σ R : Type}
+
+/-- The initial world of an evaluation run: calls that take read locks, compute — and may panic
+anywhere. -/
+theorem evalPhase_init (r : R) (calls : List (List (Act σ R) × σ))
+    (h : ∀ c ∈ calls, ∀ a ∈ c.1, a.evalSafe = true) : EvalPhase (initWorld r calls) := by
+  refine ⟨fun _ => ⟨rfl, rfl⟩, ?_, ?_, ?_⟩
+  · intro t ht
+    simp only [initWorld, List.mem_map] at ht
+    obtain ⟨c, _, rfl⟩ := ht
+    rfl
+  · intro t ht a ha
+    simp only [initWorld, List.mem_map] at ht
+    obtain ⟨c, hc, rfl⟩ := ht
+    exact h c hc a ha
+  · intro t ht hne
+    simp only [initWorld, List.mem_map] at ht
+    obtain ⟨c, _, rfl⟩ := ht
+    exact absurd rfl hne
+
+/-- **A panicking evaluation under read locks poisons nothing.**  Whatever the calls, wherever they
+panic, whatever the schedule: no lock is ever poisoned and none is ever left write-held. -/
+theorem panic_under_read_lock_poisons_nothing (w0 : World σ R) (h : EvalPhase w0) (sched : List Nat) (l : Nat) :
+    ((run w0 sched).locks l).poisoned = false ∧ ((run w0 sched).locks l).writer = false := by
+  have hp := evalPhase_run h sched
+  exact ⟨(hp.clean l).2, (hp.clean l).1⟩
+
+/-- Panics of other calls never make a call wait and never make an acquisition fail: every thread
+that still has something to do performs its next action at once. -/
+theorem no_blocking_with_panics (w0 : World σ R) (h : EvalPhase w0) (sched : List Nat) (i : Nat) (t : Thread σ R)
+    (ht : (run w0 sched).threads[i]? = some t) (hne : t.todo ≠ []) :
+    ∃ w', stepThread (run w0 sched) i = .done w' := by
+  have hp := evalPhase_run h sched
+  cases hd : t.todo with
+  | nil => exact absurd hd hne
+  | cons a rest =>
+    obtain ⟨w', _, hs, _⟩ := step_evalPhase hp ht hd
+    exact ⟨w', hs⟩
+
+/-- A thread with nothing left to do shows what it produced. -/
+theorem view_finished (r : R) (t : Thread σ R) (h : t.todo = []) : view r t = (t.st, t.ending) := by
+  unfold view
+  cases he : t.ending <;> simp [h, alone]
+
+/-- **Per-call results with panicking neighbours.**  For every schedule: what a call has done so far,
+continued alone, gives the state *and the way of ending* (returned or panicked, at the same action)
+of that call run alone from the start; a call never ends with a lock error; the registries are
+unchanged.  In particular a finished call holds exactly the result of the call run alone, however
+many other calls panicked meanwhile. -/
+theorem interleaving_independent_with_panics (w0 : World σ R) (h : EvalPhase w0) (sched : List Nat) (i : Nat)
+    (t0 t : Thread σ R) (h0 : w0.threads[i]? = some t0) (ht : (run w0 sched).threads[i]? = some t) :
+    view w0.reg t = view w0.reg t0 ∧
+    (t.todo = [] → (t.st, t.ending) = view w0.reg t0) ∧
+    (t0.ending ≠ .lockError → t.ending ≠ .lockError) ∧
+    (run w0 sched).reg = w0.reg := by
+  obtain ⟨hr, _, hp⟩ := run_preserves h sched
+  obtain ⟨e, n⟩ := hp i t0 t h0 ht
+  refine ⟨e, ?_, n, hr⟩
+  intro hfin
+  rw [← view_finished w0.reg t hfin]
+  exact e
+
+/-- non-vacuity and a worked instance: thread 0 panics while it holds the read lock twice (nested),
+thread 1 evaluates meanwhile; schedule 0,1,0,1,0,1,1: nothing is poisoned, no reader is left, thread
+1 has its own result, thread 0 ended as it does alone. -/
+example :
+    let w0 := initWorld (σ := Nat) (R := Nat) 7
+      [([.acqRead 0, .acqRead 0, .panic, .relRead 0, .relRead 0], 1),
+       ([.acqRead 0, .compute (fun r s => r * s), .relRead 0, .compute (fun _ s => s + 1)], 2)]
+    let w := run w0 [0, 1, 0, 1, 0, 1, 1]
+    (w.threads.map (fun t => (t.todo.length, t.st, t.ending))) = [(0, 1, .panicked), (0, 15, .running)] ∧
+    (w.locks 0) = { readers := 0, writer := false, poisoned := false } ∧
+    alone (σ := Nat) (R := Nat) 7 [.acqRead 0, .compute (fun r s => r * s), .relRead 0, .compute (fun _ s => s + 1)] 2 = (15, .running) ∧
+    alone (σ := Nat) (R := Nat) 7 [.acqRead 0, .acqRead 0, .panic, .relRead 0, .relRead 0] 1 = (1, .panicked) := by
+  decide
+
+example : EvalPhase (initWorld (σ := Nat) (R := Nat) 7
+    [([.acqRead 0, .acqRead 0, .panic, .relRead 0, .relRead 0], 1),
+     ([.acqRead 0, .compute (fun r s => r * s), .relRead 0], 2)]) :=
+  evalPhase_init _ _ (by simp [Act.evalSafe])
+
+/-- Sensitivity (what the read-only hypothesis excludes): a call that panics while it holds a
+*write* guard poisons the lock (P2); every later acquisition fails (P3), so another call ends with
+a lock error instead of the result it has alone — the failure mode of a write lock on the
+evaluation path. -/
+theorem panic_under_write_lock_poisons :
+    let w0 := initWorld (σ := Nat) (R := Nat) 0
+      [([.acqWrite 0, .panic, .relWrite 0], 0), ([.acqRead 0, .compute (fun _ s => s + 1), .relRead 0], 0)]
+    let w := run w0 [0, 0, 1, 1, 1]
+    (w.locks 0).poisoned = true ∧
+    (w.threads.map (fun t => (t.st, t.ending))) = [(0, .panicked), (0, .lockError)] ∧
+    alone (σ := Nat) (R := Nat) 0 [.acqRead 0, .compute (fun _ s => s + 1), .relRead 0] 0 = (1, .running) := by
+  decide
+
+end Dmn.ConcP
+
